@@ -599,8 +599,20 @@ func readerAcquirers(c *Ctx) map[*types.Func]bool {
 			continue
 		}
 		res := f.Type().(*types.Signature).Results()
-		if res.Len() > 0 && types.Identical(res.At(0).Type(), readerT) {
+		if res.Len() == 0 {
+			continue
+		}
+		if types.Identical(res.At(0).Type(), readerT) {
 			out[f] = true
+			continue
+		}
+		// the reader handed out inside a small struct (reader plus the generation it was pinned at)
+		if st, ok := res.At(0).Type().Underlying().(*types.Struct); ok {
+			for j := 0; j < st.NumFields(); j++ {
+				if types.Identical(st.Field(j).Type(), readerT) {
+					out[f] = true
+				}
+			}
 		}
 	}
 	if len(out) == 0 {
